@@ -489,7 +489,8 @@ def viol_key(c, kind):
 
 
 def witness(c, **kw):
-    w = {k: c.get(k) for k in ('variant', 'labels', 'a', 'b', 'z', 'gamma', 'alpha', 'price', 'scale', 'mu', 'pk')}
+    w = {k: c.get(k) for k in ('variant', 'labels', 'a', 'b', 'z', 'gamma', 'alpha', 'price', 'scale', 'mu', 'pk',
+                               'history')}
     w.update(kw)
     return w
 
@@ -792,6 +793,18 @@ def check_forecast_case(ctx, c, r, st):
                               'solutions have the same total utility (consumptions re-ordered by sorted label, utilities '
                               'indexed by position)', dict(w, forecast=bis, brute_force=br),
                               f'no warning (objectives {info["obj"]} vs {info["brute_obj"]})', cmpr)
+        # HISTORY: the second use of a model object equals the only use of a fresh one
+        if c.get('history') and isinstance(bis, dict) and 'exc' not in bis:
+            fr = r.get('fresh')
+            fj = fr[j] if isinstance(fr, list) and j < len(fr) else fr
+            if isinstance(fj, dict) and 'exc' not in fj and all(isnum(fj.get(str(k))) and isnum(bis.get(str(k)))
+                                                                for k in c['labels']):
+                for k in c['labels']:
+                    if abs(fj[str(k)] - bis[str(k)]) > 1e-6 * max(1.0, abs(B)):
+                        fail('history', 'a model object already used on another data set (same database / row names, '
+                             f'other covariates) forecasts alternative {k} differently from a fresh model object',
+                             dict(w, forecast=bis, fresh_model_forecast=fj), fj[str(k)], bis[str(k)])
+                        break
         infos.append(info)
     # 9. the public API on the same draws
     api = r.get('api')
@@ -835,6 +848,13 @@ def gen_forecast_cases(ctx, rng, nmod):
             d = with_labels(c, l)
             d.update({'budget': B, 'draws': draws, 'brute': True, 'api': li == 1, 'comparison': li in (1, 2)})
             g.append(d)
+        if c['b'][0] is not None:
+            # HISTORY dimension: the model object is first used on data set A (z_A != z), then on this one
+            d = with_labels(c, labelings[1])
+            zA = float(f"{c['z'] + rng.choice([-1, 1]) * rng.uniform(0.6, 2.5):.3g}")
+            d.update({'budget': B, 'draws': draws, 'brute': False, 'api': True, 'comparison': False,
+                      'history': {'z': zA}})
+            g.append(d)
         groups.append(g)
     return groups
 
@@ -842,7 +862,9 @@ def gen_forecast_cases(ctx, rng, nmod):
 def stream_forecast(ctx):
     st = ctx.stream('forecast', 'four variants x with/without outside good x prices x scale; every model under the labels '
                     '0..n-1 and under 2-3 labelings that are not 0..n-1 (random distinct ints incl. negative/large, permuted '
-                    '1..n, labels colliding with the position of the outside good); budgets 0.05..2000; 3 Gumbel draws; '
+                    '1..n, labels colliding with the position of the outside good) and, HISTORY, as a model object already '
+                    'used on another data set with the same database/row names (validation, one-draw, forecast) compared '
+                    'with a fresh object; budgets 0.05..2000; 3 Gumbel draws; '
                     'non-trivial = at least one good consumed and one not, or >= 2 consumed; distinct by (model, labels, draw)')
     rng = ctx.sub_rng('forecast')
     groups = gen_forecast_cases(ctx, rng, ctx.n(48, 1200))
@@ -858,7 +880,8 @@ def stream_forecast(ctx):
             by[(gi, li)] = (c, r)
     nbad = 0
     kkt_items = []
-    stats = {'brute_missing': 0, 'brute_compared': 0, 'exceptions': 0, 'relabel_pairs': 0, 'collision_cases': 0}
+    stats = {'brute_missing': 0, 'brute_compared': 0, 'exceptions': 0, 'relabel_pairs': 0, 'collision_cases': 0,
+             'history_cases': sum(1 for g in groups for c in g if c.get('history'))}
     for gi, g in enumerate(groups):
         infos_g = []
         for li, c in enumerate(g):
@@ -876,7 +899,7 @@ def stream_forecast(ctx):
                     stats['exceptions'] += 1
                 elif 'brute_obj' in info:
                     stats['brute_compared'] += 1
-                else:
+                elif c.get('brute', True):
                     stats['brute_missing'] += 1
                 if info is not None:
                     kkt_items.append((c, r, j, info))
@@ -1131,7 +1154,8 @@ def replay(ctx, path):
         print('replay: this file names an obligation/stream; re-run ./check C18')
         return 2
     mode = wit.get('mode', 'forecast')
-    c = {k: wit.get(k) for k in ('variant', 'labels', 'a', 'b', 'z', 'gamma', 'alpha', 'price', 'scale', 'mu', 'pk')}
+    c = {k: wit.get(k) for k in ('variant', 'labels', 'a', 'b', 'z', 'gamma', 'alpha', 'price', 'scale', 'mu', 'pk',
+                                 'history')}
     st = ctx.stream('replay', 'one recorded witness')
     if mode == 'pieces':
         c['points'] = [wit['point']]
